@@ -396,20 +396,7 @@ func checkGuardsDominateDraws(p *core.Program, r *core.Report, roles *Roles, cg,
 			r.Check(lenOK, "R13.2", name, "draw dominated by Length >= 1", pos, "a non-positive length must be refused before any randomness is consumed")
 			if fn == cg {
 				// attempt budget: an enclosing counted loop bounded by MaxTrials
-				okBudget := false
-				for _, l := range core.LoopsContaining(loops, site.Block()) {
-					cnt, ok := core.AsCounted(l)
-					if !ok || cnt.Step != 1 || cnt.Op != token.LSS {
-						continue
-					}
-					if ld, ok := cnt.Bound.(*ssa.UnOp); ok && ld.Op == token.MUL {
-						if g, ok := ld.X.(*ssa.Global); ok && g.Name() == "MaxTrials" {
-							if z, isC := core.ConstInt(cnt.Init); isC && z == 0 {
-								okBudget = true
-							}
-						}
-					}
-				}
+				okBudget := inAttemptBudgetLoop(loops, site)
 				r.Check(okBudget, "R13.5", name, "character draw lies inside the counted retry loop 0 <= i < MaxTrials", pos, "")
 				// pre-flight
 				okPre := false
@@ -654,4 +641,23 @@ func noAddsOn(v ssa.Value) bool {
 		}
 	}
 	return true
+}
+
+// inAttemptBudgetLoop: the site lies inside a counted loop 0 <= i < MaxTrials, step 1
+// (exactly MaxTrials attempts, the figure the pre-flight test is computed for).
+func inAttemptBudgetLoop(loops []*core.Loop, site ssa.Instruction) bool {
+	for _, l := range core.LoopsContaining(loops, site.Block()) {
+		cnt, ok := core.AsCounted(l)
+		if !ok || cnt.Step != 1 || cnt.Op != token.LSS {
+			continue
+		}
+		if ld, ok := cnt.Bound.(*ssa.UnOp); ok && ld.Op == token.MUL {
+			if g, ok := ld.X.(*ssa.Global); ok && g.Name() == "MaxTrials" {
+				if z, isC := core.ConstInt(cnt.Init); isC && z == 0 {
+					return true
+				}
+			}
+		}
+	}
+	return false
 }
